@@ -30,6 +30,7 @@ def orders : Orders where
   chApplyPtsBreak := decide (Facts.C02.chApplyPtsSkip ≠ 0)
   ownDirect := Facts.C02.ownDirect
   chOwnDirect := Facts.C02.chOwnDirect
+  creationStoresLocal := decide (Facts.C02.creationStore = 0)
   diffLimit := Facts.C02.diffLimitUser
 
 end TdModel.C02
